@@ -538,6 +538,7 @@ func c07Case(ctx *core.Ctx, r *gen.Rng, m *meta.Module, root *tree.SNode, yang s
 		"target_content": t.data.Desc(t.s), "observed": obsDesc, "store_unchanged": unchanged, "stream": label}
 	ctx.Add(term, desc, len(ps) > 0 && t.data.Size() > 0)
 	ctx.Count("stream:" + label)
+	ctx.Count("call:" + call)
 	ctx.Count(fmt.Sprintf("params:%d", len(ps)))
 	for _, k := range kinds {
 		ctx.Count("param:" + k)
@@ -564,8 +565,8 @@ func C07(ctx *core.Ctx) error {
 			strings.Join(c07Prelude, ".\n")
 	}()
 	r := gen.New(ctx.Seed)
-	nSchemas := ctx.Scale(4, 60)
-	targetsPer := ctx.Scale(2, 4)
+	nSchemas := ctx.Scale(4, 20)
+	targetsPer := ctx.Scale(2, 3)
 	for n := 0; n < nSchemas; n++ {
 		var yang string
 		var m *meta.Module
